@@ -55,8 +55,8 @@ def run(ctx):
     r1 = ctx.rule("PAIR.inuse", "enter: every path that stores a new key increments inuse exactly once and the existing-key path does not; delete: every path returning the found value decrements exactly once, the not-found returns do not; empty zeroes it", floor=6)
     # enter(), path by path over values (symx.run_paths): what each case stores and how the count moves
     from .. import symx, lin
-    found_edge = lambda f, c, pol: pol and "lookup(" in f.canon(c)
-    notfound_edge = lambda f, c, pol: (not pol) and "lookup(" in f.canon(c)
+    found_edge = lambda f, c, pol: pol and "lookup(" in f.canon(c, calls=True)
+    notfound_edge = lambda f, c, pol: (not pol) and "lookup(" in f.canon(c, calls=True)
     LK = "lookup(h, hash, key, len)"
     HEAD = "h->table[hash]"
     ebad = {}
@@ -187,17 +187,52 @@ def run(ctx):
     # ---- R5 traversals ---------------------------------------------------------------------------
     r5 = ctx.rule("TWIN.traversal", "every traversal visits the head slot iff its key is non-NULL and then follows the `next` chain to its end; the iterator advances idx exactly once per head it hands out and bounds-checks before reading the table", floor=8)
     tl = fns["hash_table_tolist"]
-    adds = tl.calls("glist_add_ptr")
-    ctx.check(r5, len(adds) == 2, key(tl, "two-visits"), tl.where(tl.root), "tolist must visit head and chain entries (found %d visit sites)" % len(adds))
-    for c in adds:
-        arg = tl.canon(tl.args(c)[1])
-        g = paths.guarded(tl, c, lambda f, cc, pol: pol and re.match(r"^\(?(&?h->table\[\w+\])[.>-]+key\)?$", paths.cond_atoms(f, cc, True)[0] if paths.cond_atoms(f, cc, pol)[1] else "") is not None)
-        ctx.check(r5, g, key(tl, "visit-guard:" + arg), tl.where(c), "an entry is exported without the dominating `key != NULL` test of its bucket")
-        # count paired
-        js = [s for s in paths.stores(tl) if s["kind"] == "DeclRef" and s["op"] == "++" and paths.same_block(tl, s["node"], c)]
-        ctx.check(r5, len(js) == 1, key(tl, "count:" + arg), tl.where(c), "an exported entry is not counted exactly once")
+    # one bucket of hash_table_tolist, path by path over values (symx.loop_paths): the head is exported iff
+    # its key is set, then every chain element up to the NULL end, each counted once
+    from .. import symx
+    tloops = [l for l in tl.find("For") + tl.find("While")]
+    touter = [l for l in tloops if not any(l in set(tl.walk(o)) and o != l for o in tloops)]
+    bad5 = {}
+    nvis = 0
+    if len(touter) != 1:
+        bad5["two-visits"] = "expected one loop over the buckets"
+    else:
+        for pt in symx.loop_paths(tl, touter[0], P):
+            if pt.end != "next":
+                continue
+            hk = [ev_ for ev_ in pt.events if ev_[0] == "branch" and ev_[1][0] == "nz" and re.match(r"^h->table\[\w+\]\.key$", ev_[1][1])]
+            adds_ = [(i_, ev_) for i_, ev_ in enumerate(pt.events) if ev_[0] == "call" and ev_[1] == "glist_add_ptr"]
+            if not hk:
+                bad5["visit-guard"] = "a bucket is exported without testing its head key"
+                continue
+            if not hk[0][2]:
+                if adds_:
+                    bad5["visit-guard"] = "an empty bucket (key == NULL) is exported"
+                continue
+            nvis += len(adds_)
+            if not adds_ or not re.match(r"^&h->table\[\w+\]$", adds_[0][1][2][1]) or pt.events.index(hk[0]) > adds_[0][0]:
+                bad5["two-visits"] = "a bucket with a key does not export its head slot first"
+                continue
+            for n_, (i_, ev_) in enumerate(adds_):
+                E = ev_[2][1]
+                if n_ > 0 and not any(x[0] == "branch" and x[1] == ("nz", E) and x[2] for x in pt.events[:i_]):
+                    bad5["visit-guard"] = "a chain element is exported without knowing it exists"
+                nxt_ = adds_[n_ + 1][0] if n_ + 1 < len(adds_) else len(pt.events)
+                incs_ = [x for x in pt.events[i_:nxt_] if x[0] == "store" and x[1] == "j"]
+                if len(incs_) != 1:
+                    bad5["count"] = "an exported entry is not counted exactly once"
+                stepped = [x for x in pt.events[i_:nxt_] if x[0] == "store" and lin.p_str(x[2]) == symx.field_of(E, "next")]
+                if not stepped:
+                    bad5["chain-loop"] = "after exporting an entry the walk does not continue with its `next`"
+            last = [x for x in pt.events if x[0] == "branch" and x[1][0] == "nz" and ("@L" in x[1][1] or x[1][1].endswith(".next"))]
+            if not last or last[-1][2]:
+                bad5["chain-loop"] = "a bucket is left before the end of its chain"
+    if nvis < 3 and not bad5:
+        bad5["two-visits"] = "tolist must visit head and chain entries"
+    for k_ in ("two-visits", "visit-guard", "count", "chain-loop"):
+        ctx.check(r5, k_ not in bad5, key(tl, k_), tl.where(tl.root), bad5.get(k_, ""))
     # chain loops in all traversals: variable stepping by ->next until NULL
-    for name in ("hash_table_tolist", "hash_table_display", "hash_table_empty", "hash_table_free"):
+    for name in ("hash_table_display", "hash_table_empty", "hash_table_free"):      # tolist: decided over paths above
         f = fns.get(name)
         if f is None:
             raise AnalysisIncomplete("anchor vanished: %s" % name)
@@ -252,31 +287,52 @@ def run(ctx):
     # ---- R6 comparison discipline -------------------------------------------------------------------
     r6 = ctx.rule("GUARD.len-first", "lookup and delete compare the stored length before the bytes, in both case modes, with the comparator of the table's mode; comparators cover exactly entry->len bytes and fold case on both sides in no-case mode", floor=8)
     for f in (lookup, delete):
-        for cal, mode in (("keycmp_nocase", True), ("keycmp_case", False)):
-            cs = f.calls(cal)
-            ctx.check(r6, len(cs) == 1, key(f, cal), f.where(f.root), "expected one call of %s" % cal)
-            for c in cs:
-                a = [f.canon(x, subst=False) for x in f.args(c)]
-                ent = a[0]
-                g1 = paths.guarded(f, c, lambda fn, cc, pol, ent=ent: paths.rel(fn, cc, pol, subst=False) in ((ent + "->len", "==", "len"), ("len", "==", ent + "->len")))
-                g2 = paths.guarded(f, c, lambda fn, cc, pol, mode=mode: paths.cond_atoms(fn, cc, pol) == ("h->nocase", mode))
-                g3 = paths.guarded(f, c, lambda fn, cc, pol, ent=ent: paths.cond_atoms(fn, cc, pol) == (ent, True))
-                ctx.check(r6, g1, key(f, cal + ":len-first"), f.where(c), "key bytes are compared without first establishing equal length (prefix keys would match)")
-                ctx.check(r6, g2, key(f, cal + ":mode"), f.where(c), "%s is used in the wrong case mode" % cal)
-                ctx.check(r6, g3 and a[1] == "key", key(f, cal + ":args"), f.where(c), "comparator called as %s(%s)" % (cal, ", ".join(a)))
-        # loop exits: continue while mismatch
-        # the walk steps along ->next
-        steps = [s for s in paths.stores(f) if s["kind"] == "DeclRef" and s["path"] == "entry" and s["rhs"] is not None and f.canon(s["rhs"], subst=False) == "entry->next" and f.enclosing(s["node"], ("While", "For", "Do")) is not None]
-        ctx.check(r6, len(steps) == 2, key(f, "walk"), f.where(f.root), "bucket walk does not step along entry->next in both modes")
-        # the two mode branches are the same walk: same stores in the same order
-        loops = [w for w in f.find("While") if any(f.nodes[c].get("callee", "").startswith("keycmp_") for c in f.calls(None, root=w))]
-        bodies = []
-        for w in loops:
-            body = f.ch(w)[1]
-            bodies.append([(s_["path"], s_["op"], f.canon(s_["rhs"], subst=False) if s_["rhs"] is not None else "") for s_ in paths.stores(f, body)])
-        ctx.check(r6, len(bodies) == 2 and bodies[0] == bodies[1], key(f, "mode-twins"), f.where(f.root), "the case-sensitive and case-insensitive walks differ: %s vs %s" % (bodies[0] if bodies else None, bodies[1] if len(bodies) > 1 else None))
-        if f is delete and len(bodies) == 2:
-            ctx.check(r6, bodies[0] == [("prev", "=", "entry"), ("entry", "=", "entry->next")], key(f, "prev-trails"), f.where(f.root), "`prev` does not trail `entry` along the chain (%s): a chained entry would be deleted as if it were the head" % bodies[0])
+        # the bucket walk, path by path over values (symx.run_paths; each loop taken zero or one time):
+        # while / for / break, one loop per mode or a comparator chosen once all read the same
+        bad6 = {}
+        sigs = {True: set(), False: set()}
+        ncmp = {"keycmp_nocase": 0, "keycmp_case": 0}
+        steps = 0
+        for pt in symx.run_paths(f, P):
+            mode = None
+            sig = []
+            for i_, ev_ in enumerate(pt.events):
+                if ev_[0] == "branch" and ev_[1] == ("nz", "h->nocase"):
+                    mode = ev_[2]
+                    continue
+                if ev_[0] == "call" and ev_[1] in ncmp:
+                    ncmp[ev_[1]] += 1
+                    E = ev_[2][0]
+                    before = [x for x in pt.events[:i_] if x[0] == "branch"]
+                    if mode is None or mode != (ev_[1] == "keycmp_nocase"):
+                        bad6[ev_[1] + ":mode"] = "%s is used in the wrong case mode" % ev_[1]
+                    if len(ev_[2]) != 2 or ev_[2][1] != "key" or not (E.startswith("&") or any(x[1] == ("nz", E) and x[2] for x in before)):
+                        bad6[ev_[1] + ":args"] = "comparator called as %s(%s) on an entry not known to exist" % (ev_[1], ", ".join(ev_[2]))
+                    lk_ = ("==",) + tuple(sorted((symx.field_of(E, "len"), "len")))
+                    if not any(x[1] == lk_ and x[2] for x in before):
+                        bad6[ev_[1] + ":len-first"] = "key bytes are compared without first establishing equal length (prefix keys would match)"
+                if ev_[0] == "store" and ev_[1] == "entry" and lin.p_str(ev_[2]).endswith("next") and i_ > 0:
+                    steps += 1
+                    if f is delete:
+                        pv = [x for x in pt.events[:i_] if x[0] == "store" and x[1] == "prev"]
+                        if not pv or symx.field_of(lin.p_str(pv[-1][2]), "next") != lin.p_str(ev_[2]):
+                            bad6["prev-trails"] = "`prev` does not trail `entry` along the chain: a chained entry would be deleted as if it were another"
+                if ev_[0] == "branch":
+                    sig.append(("B", tuple(re.sub(r"@L\d+", "@L", re.sub(r"keycmp_(no)?case", "CMP", y)) if isinstance(y, str) else y for y in ev_[1]), ev_[2]))
+                elif ev_[0] == "call":
+                    sig.append(("C", re.sub(r"keycmp_(no)?case", "CMP", ev_[1]), tuple(re.sub(r"@L\d+", "@L", a_) for a_ in ev_[2])))
+                else:
+                    sig.append(("S", re.sub(r"@L\d+", "@L", ev_[1]), re.sub(r"@L\d+", "@L", re.sub(r"keycmp_(no)?case", "CMP", lin.p_str(ev_[2])))))
+            if mode is not None:
+                sigs[mode].add(tuple(sig))
+        for cal in ncmp:
+            ctx.check(r6, ncmp[cal] >= 1, key(f, cal), f.where(f.root), "expected a comparison with %s" % cal)
+            for k_ in (":len-first", ":mode", ":args"):
+                ctx.check(r6, (cal + k_) not in bad6, key(f, cal + k_), f.where(f.root), bad6.get(cal + k_, ""))
+        ctx.check(r6, steps >= 2, key(f, "walk"), f.where(f.root), "bucket walk does not step along entry->next in both modes")
+        ctx.check(r6, sigs[True] == sigs[False] and len(sigs[True]) >= 3, key(f, "mode-twins"), f.where(f.root), "the case-sensitive and case-insensitive walks differ: %s" % sorted(sigs[True] ^ sigs[False], key=str)[:1])
+        if f is delete:
+            ctx.check(r6, "prev-trails" not in bad6, key(f, "prev-trails"), f.where(f.root), bad6.get("prev-trails", ""))
         # empty bucket test first
         first = [r for r in f.find("Return") if paths.guarded(f, r, lambda fn, cc, pol: paths.cond_atoms(fn, cc, pol, subst=False) == ("entry->key", False))]
         ctx.check(r6, len(first) >= 1, key(f, "empty-bucket"), f.where(f.root), "no early return for an empty bucket (key == NULL)")
@@ -346,7 +402,7 @@ def run(ctx):
         f = fns[name]
         for s in paths.stores(f):
             if s["path"] == "*val":
-                g = paths.guarded(f, s["node"], lambda fn, cc, pol: pol and "lookup(" in fn.canon(cc))
+                g = paths.guarded(f, s["node"], lambda fn, cc, pol: pol and "lookup(" in fn.canon(cc, calls=True))
                 ctx.check(r7, g and f.canon(s["rhs"]).endswith("->val"), key(f, "out"), f.where(s["node"]), "value is returned without a found entry")
         rets = sorted(f.canon(f.ch(r)[0]) for r in f.find("Return"))
         ctx.check(r7, rets == ["-1", "0"], key(f, "returns"), f.where(f.root), "lookup returns %s" % rets)
